@@ -69,12 +69,14 @@ K("C03", "K03-phrase-kernels", "c03_phrase_exists_count_slop", timeout=240,
   title="phrase position kernels = quadratic definition (exists / count / exists-with-slop)",
   functions=["phrase_scorer::intersection_exists", "intersection_count", "intersection_exists_with_slop"],
   bounds="sorted position lists <= 3 x 3, full u32 positions and slop; unwind 8")
-K("C03", "K03-phrase-inplace", "c03_phrase_intersection_inplace", timeout=300,
+K("C03", "K03-phrase-inplace", "c03_phrase_intersection_inplace_len2", timeout=600,
   title="in-place position intersection keeps exactly the common positions in order",
-  functions=["phrase_scorer::intersection"], bounds="<= 3 x 3 positions; unwind 8")
-K("C03", "K03-phrase-slop-count", "c03_phrase_count_with_slop", timeout=300,
+  functions=["phrase_scorer::intersection"], bounds="<= 2 x 2 positions; unwind 8")
+K("C03", "K03-phrase-inplace-3", "c03_phrase_intersection_inplace_len3", timeout=1200, tiers="t", mem=30, title="in-place position intersection, 3 x 3", functions=["phrase_scorer::intersection"], bounds="<= 3 x 3 positions")
+K("C03", "K03-phrase-slop-count", "c03_phrase_count_with_slop_len2", timeout=600,
   title="count_with_slop > 0 iff some pair is within the slop; slop 0 = exact count",
-  functions=["phrase_scorer::intersection_count_with_slop"], bounds="<= 3 x 3 positions; unwind 8")
+  functions=["phrase_scorer::intersection_count_with_slop"], bounds="<= 2 x 2 positions; unwind 8")
+K("C03", "K03-phrase-slop-count-3", "c03_phrase_count_with_slop_len3", timeout=1800, tiers="t", mem=40, title="count_with_slop, 3 x 3", functions=["phrase_scorer::intersection_count_with_slop"], bounds="<= 3 x 3 positions")
 K("C03", "K03-i64-order", "c03_i64_to_u64_order_roundtrip", crate="tantivy-common", timeout=60,
   title="i64 <-> u64 mapping is strictly order preserving and bijective",
   functions=["common::i64_to_u64", "common::u64_to_i64"], bounds="all 2^64 x 2^64 pairs", checks="full")
@@ -101,9 +103,9 @@ def _c06(oid, harness, title, fns, bounds, **kw):
 _c06("K06-topn-k1", "c06_topn_k1_m4_natural", "TopNComputer K=1, 4 pushes = exhaustive ranking incl. ties", ["TopNComputer::{new_with_comparator,push,append_doc,truncate_top_n,into_sorted_vec}", "compare_for_top_k"], "u8 keys (ties abound), NaturalComparator; unwind 7", timeout=120, group="topn")
 _c06("K06-topn-k2", "c06_topn_k2_m5_natural", "TopNComputer K=2, 5 pushes", ["TopNComputer::*"], "u8 keys; unwind 8", timeout=180, group="topn")
 _c06("K06-topn-k2-rev", "c06_topn_k2_m5_reverse", "TopNComputer K=2, ReverseComparator (ascending sort)", ["TopNComputer::*", "ReverseComparator::compare"], "u8 keys; unwind 8", timeout=180, group="topn")
-_c06("K06-topn-k2-m7", "c06_topn_k2_m7_natural", "TopNComputer K=2, 7 pushes (two truncations)", ["TopNComputer::*"], "u8 keys; unwind 10", timeout=600, tiers="t")
-_c06("K06-topn-k3-m7", "c06_topn_k3_m7_natural", "TopNComputer K=3, 7 pushes", ["TopNComputer::*"], "u8 keys; unwind 10", timeout=900, tiers="t")
-_c06("K06-topn-k3-m9", "c06_topn_k3_m9_reverse", "TopNComputer K=3, 9 pushes, ReverseComparator", ["TopNComputer::*"], "u8 keys; unwind 12", timeout=900, tiers="t")
+_c06("K06-topn-k2-m7", "c06_topn_k2_m7_natural", "TopNComputer K=2, 7 pushes (two truncations)", ["TopNComputer::*"], "u8 keys; unwind 10", timeout=3600, tiers="t")
+_c06("K06-topn-k3-m7", "c06_topn_k3_m7_natural", "TopNComputer K=3, 7 pushes (one truncation)", ["TopNComputer::*"], "u8 keys; unwind 10", timeout=300)
+_c06("K06-topn-k3-m9", "c06_topn_k3_m9_reverse", "TopNComputer K=3, 9 pushes, ReverseComparator", ["TopNComputer::*"], "u8 keys; unwind 12", timeout=3600, tiers="t")
 _c06("K06-threshold", "c06_topn_threshold_sound_k2_m6", "threshold soundness: a dropped push is never in the top K; threshold = key of a pushed item with > K items >= it", ["TopNComputer::push", "truncate_top_n"], "K=2, 6 pushes, u8 keys; unwind 8", timeout=400)
 _c06("K06-heap-k1", "c06_topnheap_k1_m4", "TopNHeap K=1: results are top-K members, threshold = exact K-th best score", ["TopNHeap::{new,push,into_vec}", "ScoreHeapEntry::cmp"], "4 pushes, u8 scores as f32; unwind 8", timeout=120, group="heap")
 _c06("K06-heap-k2", "c06_topnheap_k2_m5", "TopNHeap K=2, 5 pushes", ["TopNHeap::*"], "unwind 8", timeout=180, group="heap")
@@ -111,8 +113,11 @@ _c06("K06-heap-k3", "c06_topnheap_k3_m6", "TopNHeap K=3, 6 pushes", ["TopNHeap::
 _c06("K06-heap-short", "c06_topnheap_k3_m2", "TopNHeap with fewer docs than K: all returned, no threshold", ["TopNHeap::*"], "K=3, 2 pushes", timeout=120)
 K("C06", "K06-blockmax-tf", "c06_block_wand_tf_upper_bound", timeout=60, title="stored block-max term frequency decodes to an upper bound (exact below 255)",
   functions=["skip::encode_block_wand_max_tf", "skip::decode_block_wand_max_tf"], bounds="all u32", checks="full")
-K("C06", "K06-score-monotone", "c06_score_monotone_in_tf_factor", timeout=60, title="score = weight * tf_factor is monotone in tf_factor for weight >= 0 (f32)",
-  functions=["f32 multiply as used by Bm25Weight::score"], bounds="all finite weights in [0,1e6], factors in [0,1]")
+for _n, _h in (("positions", "c07_skip_roundtrip_positions"), ("freqs", "c07_skip_roundtrip_freqs")):
+    K("C06", "K06-blockmax-skip-" + _n, _h, timeout=240,
+      title="block-max metadata read back from the skip list bounds what was written (fieldnorm id exact, term freq >= written), record option " + _n,
+      functions=["SkipSerializer::write_blockwand_max", "SkipReader::read_block_info", "decode_block_wand_max_tf"],
+      bounds="2 full blocks + tail, all fields symbolic; unwind 6", assumes=["seek target <= TERMINATED"])
 K("C06", "K06-merge-k2", "c06_merge_top_k_k2_3segs", tiers="t", timeout=1200,
   title="merge_top_k over 3 segment fruits in arbitrary intra-segment order = global top K with address tie-break",
   functions=["sort_key_top_collector::merge_top_k", "TopNComputer::*"], bounds="K=2, 3 segments x 2 items, keys < 4, docs < 16",
@@ -157,12 +162,10 @@ for _w, _n in ((9, 5), (33, 5)):
 # C08  fast fields (codec level)
 # ---------------------------------------------------------------------------------------------
 for _w, _n in ((0, 5), (1, 9), (7, 5), (8, 5), (9, 5), (31, 5), (32, 5), (33, 5), (56, 5), (64, 4)):
-    K("C08", "K08-bitpacker-w%d" % _w, "c08_bitpacker_w%d" % _w, crate="tantivy-bitpacker", timeout=120, group="bp-width",
+    K("C08", "K08-bitpacker-w%d" % _w, "c08_bitpacker_w%d" % _w, crate="tantivy-bitpacker", timeout=120,
       title="BitPacker -> BitUnpacker::get round trip, exact byte length, width %d" % _w,
       functions=["BitPacker::{write,flush,close}", "BitUnpacker::{new,get,get_slow_path}"],
       bounds="%d symbolic values of width %d, symbolic read index (fast and slow path)" % (_n, _w), assumes=["values fit the announced width"])
-K("C08", "K08-ids-for-range", "c08_get_ids_for_value_range_w9", crate="tantivy-bitpacker", timeout=600, tiers="t",
-  title="BitUnpacker::get_ids_for_value_range = filter of the id range by value range", functions=["BitUnpacker::get_ids_for_value_range{,_fast}"], bounds="5 values of 9 bits, symbolic range")
 for _g in (1, 2, 3, 10, 1000):
     K("C08", "K08-range-gcd%d" % _g, "c08_range_transform_gcd%d" % _g, crate="tantivy-columnar", timeout=120, group="c08-range-gcd",
       title="range push-down through min/gcd transformation, gcd %d" % _g, functions=["bitpacked::transform_range_before_linear_transformation"],
@@ -184,12 +187,13 @@ K("C08", "K08-f64-order", "c03_f64_to_u64_order_roundtrip", crate="tantivy-commo
 # ---------------------------------------------------------------------------------------------
 # C12  BM25 arithmetic
 # ---------------------------------------------------------------------------------------------
-K("C12", "K12-tf-shape", "c12_tf_factor_shape", timeout=300, title="tf_factor in [0,1], 0 at tf=0, monotone in tf; score = weight * tf_factor",
+K("C12", "K12-tf-range", "c12_tf_factor_range", timeout=600, title="tf_factor in [0,1], 0 exactly at tf = 0 (one f32 division)", functions=["Bm25Weight::tf_factor"], bounds="all u32 tf, cache entry in [0.3, 1e30]")
+K("C12", "K12-tf-shape", "c12_tf_factor_shape", timeout=1800, tiers="t", title="tf_factor in [0,1], 0 at tf=0, monotone in tf; score = weight * tf_factor",
   functions=["Bm25Weight::tf_factor", "Bm25Weight::score"], bounds="all u32 tf, cache entry in [0.3, 1e30], weight in [0, 1e6]; one symbolic cache entry at a symbolic id",
   assumes=["the cache entry is in the range cached_tf_component can produce (>= K1*(1-B), finite)"])
-K("C12", "K12-tf-antitone", "c12_tf_factor_antitone_in_norm", timeout=300, title="tf_factor is antitone in the field-length norm", functions=["Bm25Weight::tf_factor"], bounds="as above")
-K("C12", "K12-cache-monotone", "c12_cached_tf_component_monotone", timeout=300, title="cached_tf_component monotone in the field norm, >= K1*(1-B)", functions=["bm25::cached_tf_component"], bounds="all u32 field norms, average in [1e-3, 1e9]")
-K("C12", "K12-boost", "c12_boost_by", timeout=300, title="boost_by multiplies the weight; boost 1.0 is the identity", functions=["Bm25Weight::boost_by", "score"], bounds="weights, boosts in [0, 1e6]")
+K("C12", "K12-tf-antitone", "c12_tf_factor_antitone_in_norm", timeout=1800, tiers="t", title="tf_factor is antitone in the field-length norm", functions=["Bm25Weight::tf_factor"], bounds="as above")
+K("C12", "K12-cache-monotone", "c12_cached_tf_component_monotone", timeout=1800, tiers="t", title="cached_tf_component monotone in the field norm, >= K1*(1-B)", functions=["bm25::cached_tf_component"], bounds="all u32 field norms, average in [1e-3, 1e9]")
+K("C12", "K12-boost", "c12_boost_by", timeout=1800, tiers="t", title="boost_by multiplies the weight; boost 1.0 is the identity", functions=["Bm25Weight::boost_by", "score"], bounds="weights, boosts in [0, 1e6]")
 K("C12", "K12-idf-domain", "c12_idf_argument_domain", timeout=120, title="idf argument (N-n+0.5)/(n+0.5) is positive and finite for n <= N", functions=["bm25::idf (argument)"], bounds="N < 2^40")
 K("C12", "K12-combiners", "c12_combiners", timeout=120, title="Sum / DisjunctionMax / DoNothing combiners = their definitions", functions=["SumCombiner", "DisjunctionMaxCombiner", "DoNothingCombiner"], bounds="3 clauses, u8 scores, tie breaker in quarters")
 K("C12", "K12-fieldnorm-floor", "c07_fieldnorm_floor", timeout=120, title="field length quantisation (256 buckets) is the floor onto the table", functions=["fieldnorm_to_id", "id_to_fieldnorm"], bounds="all u32")
@@ -237,10 +241,14 @@ for _n in (64, 70, 129):
 # ---------------------------------------------------------------------------------------------
 K("C05", "K05-ownedbytes", "c05_ownedbytes_views_compose", crate="ownedbytes", timeout=400, title="OwnedBytes slice / split / advance compose by offsets; earlier views are not disturbed",
   functions=["OwnedBytes::{new,slice,split,advance,as_slice,len}"], bounds="8-byte backing array, symbolic cut points; unwind 10")
-K("C18", "K18-lock-machine", "c18_lock_state_machine", timeout=600, title="default Directory::acquire_lock + DirectoryLockGuard: at most one live guard; acquire Ok iff free; failed acquire changes nothing; drop frees",
+K("C18", "K18-lock-machine-3", "c18_lock_state_machine_3steps", timeout=900, title="default Directory::acquire_lock + DirectoryLockGuard: at most one live guard; acquire Ok iff free; failed acquire changes nothing; drop frees",
   functions=["Directory::acquire_lock (default)", "directory::try_acquire_lock", "DirectoryLockGuard::drop", "retry_policy", "RetryPolicy::wait_and_retry"],
-  bounds="every program of 4 steps over {acquire, acquire with injected I/O error, drop guard}; unwind 3",
+  bounds="every program of 3 steps over {acquire, acquire with injected I/O error, drop guard}; unwind 3",
   assumes=["stub directory with one lock slot and create-new semantics of open_write (what MmapDirectory / RamDirectory provide)"])
+K("C18", "K18-lock-machine-4", "c18_lock_state_machine_4steps", timeout=1800, tiers="t", title="lock state machine, programs of 4 steps",
+  functions=["Directory::acquire_lock (default)", "try_acquire_lock", "DirectoryLockGuard::drop"], bounds="4 steps")
+K("C18", "K18-lock-fixed", "c18_lock_fixed_scenario", timeout=300, title="acquire / acquire -> LockBusy / drop / acquire on the default lock implementation",
+  functions=["Directory::acquire_lock (default)", "try_acquire_lock", "DirectoryLockGuard::drop"], bounds="fixed 4-call scenario")
 K("C18", "K18-lock-statics", "c18_lock_statics", timeout=300, title="INDEX_WRITER_LOCK is non-blocking, META_LOCK blocking, different files",
   functions=["INDEX_WRITER_LOCK", "META_LOCK", "retry_policy"], bounds="", stubs=["std::thread::current::current", "std::thread::functions::park"])
 K("C19", "K19-simple-utf8-2", "c19_simple_tokenizer_utf8_len2", timeout=1800, tiers="t", title="SimpleTokenizer offsets on every valid 2-byte UTF-8 text, every classification",
@@ -252,15 +260,17 @@ K("C19", "K19-simple-ascii-3", "c19_simple_tokenizer_ascii_len3", timeout=900, t
 K("C19", "K19-ws-utf8-2", "c19_whitespace_tokenizer_utf8_len2", timeout=900, title="WhitespaceTokenizer offsets / content on every valid 2-byte UTF-8 text",
   functions=["WhitespaceTokenizer::token_stream", "WhitespaceTokenStream::{advance,search_token_end}"], bounds="all valid UTF-8 texts of 2 bytes", assumes=["token String pre-reserved"])
 K("C19", "K19-ws-utf8-3", "c19_whitespace_tokenizer_utf8_len3", timeout=1800, tiers="t", title="WhitespaceTokenizer, 3 bytes", functions=["WhitespaceTokenizer::*"], bounds="all valid UTF-8 texts of 3 bytes")
-K("C19", "K19-ranges", "c19_merge_overlapping_ranges", timeout=600, title="snippet highlight ranges: merged output sorted, disjoint, same union",
-  functions=["snippet::merge_overlapping_ranges"], bounds="<= 3 ranges with bounds < 1000, sorted and deduplicated as sort_and_deduplicate_ranges returns them")
-K("C20", "K20-proxy", "c20_footer_proxy_hashes_accepted_bytes", timeout=900, title="FooterProxy hashes exactly the bytes the underlying writer accepted (short writes)",
-  functions=["FooterProxy::{new,write}", "crc32fast::Hasher::{update,finalize} (baseline)"], bounds="3 bytes, <= 3 partial writes; unwind 6",
+K("C19", "K19-ranges", "c19_merge_overlapping_ranges_n2", timeout=600, title="snippet highlight ranges: merged output sorted, disjoint, same union",
+  functions=["snippet::merge_overlapping_ranges"], bounds="<= 2 ranges with bounds < 1000, sorted and deduplicated as sort_and_deduplicate_ranges returns them")
+K("C19", "K19-ranges-3", "c19_merge_overlapping_ranges_n3", timeout=1800, tiers="t", mem=40, title="snippet range merging, 3 ranges", functions=["snippet::merge_overlapping_ranges"], bounds="<= 3 ranges")
+K("C20", "K20-proxy-len2", "c20_footer_proxy_hashes_accepted_bytes_len2", timeout=900, title="FooterProxy hashes exactly the bytes the underlying writer accepted (short writes)",
+  functions=["FooterProxy::{new,write}", "crc32fast::Hasher::{update,finalize} (baseline)"], bounds="2 bytes, <= 2 partial writes; unwind 6",
   stubs=["crc32fast::Hasher::new -> baseline (table) implementation"])
+K("C20", "K20-proxy-len3", "c20_footer_proxy_hashes_accepted_bytes_len3", timeout=1800, tiers="t", title="FooterProxy hashes exactly the accepted bytes, 3 bytes / 3 short writes",
+  functions=["FooterProxy::{new,write}"], bounds="3 bytes, <= 3 partial writes", stubs=["crc32fast::Hasher::new -> baseline"])
 K("C20", "K20-crc-len2", "c20_crc_detects_byte_damage_len2", timeout=300, group="crc-damage", title="CRC-32 detects any single byte substitution / bit flip, body of 2 bytes", functions=["crc32fast baseline"], bounds="", stubs=["Hasher::new -> baseline"])
 K("C20", "K20-crc-len4", "c20_crc_detects_byte_damage_len4", timeout=600, group="crc-damage", title="CRC-32 detects any single byte substitution / bit flip, body of 4 bytes", functions=["crc32fast baseline"], bounds="", stubs=["Hasher::new -> baseline"])
-K("C20", "K20-crc-extension", "c20_crc_detects_extension", timeout=600, title="CRC-32 changes when one byte is appended / removed (bodies of 1..3 bytes)", functions=["crc32fast baseline"], bounds="", stubs=["Hasher::new -> baseline"])
-K("C20", "K20-crc-incremental", "c20_crc_incremental", timeout=300, title="split updates hash like one update", functions=["crc32fast::Hasher::update"], bounds="4 bytes, any cut", stubs=["Hasher::new -> baseline"])
+K("C20", "K20-crc-incremental", "c20_crc_incremental", timeout=300, title="split updates hash like one update", functions=["crc32fast::Hasher::update"], bounds="3 bytes, any cut", stubs=["Hasher::new -> baseline"])
 K("C20", "K20-version-gate", "c20_version_gate", timeout=300, title="Footer::is_compatible accepts exactly the supported index format versions", functions=["Footer::is_compatible"], bounds="all u32 versions",
   stubs=["std::thread::current::current", "std::thread::functions::park"])
 
